@@ -11,24 +11,73 @@ FORBIDDEN_SEM = {"INTENT_ADD", "INTENT_DEL", "INTENT_MUT", "WAL_WRITE", "WAL_FLU
                  "SNAP_PUBLISH:INDEX", "SNAP_WRITE:SETTINGS", "SNAP_PUBLISH:SETTINGS"}
 
 
+def _owned_structs(prog, path, seen=None):
+    """Crate-local structs held by value (field of a field ...) by struct `path`, with the field path to each."""
+    seen = seen if seen is not None else {}
+    adt = prog.adts.get(path)
+    if adt is None or adt["kind"] != "Struct":
+        return seen
+    for f in adt["variants"][0]["fields"]:
+        t = prog.types[f["ty"]]
+        if t.get("k") == "adt" and t.get("def") in prog.adts and t["def"] not in seen and t["def"] != path:
+            seen[t["def"]] = f["name"]
+            _owned_structs(prog, t["def"], seen)
+    return seen
+
+
 def txn_type(ctx):
-    """The transaction type: the crate-local struct that owns a NamedTempFile by value."""
-    hits = []
-    for path, adt in ctx.prog.adts.items():
+    """The transaction type: the crate-local struct that owns a NamedTempFile by value - directly, or through private
+    structs it holds by value (a staging-file newtype, say).  If several qualify, the one a caller can name."""
+    prog = ctx.prog
+    direct = []
+    for path, adt in prog.adts.items():
         if adt["kind"] != "Struct":
             continue
         for f in adt["variants"][0]["fields"]:
-            d, _ = ctx.prog.adt_of(f["ty"])
-            t = ctx.prog.types[f["ty"]]
+            t = prog.types[f["ty"]]
             if t.get("k") == "adt" and effects.norm(t["def"]) == "tempfile::NamedTempFile":
-                hits.append(path)
+                direct.append(path)
+    hits = list(direct)
+    for path, adt in prog.adts.items():
+        if adt["kind"] == "Struct" and path not in hits and any(d in _owned_structs(prog, path) for d in direct):
+            hits.append(path)
     if len(hits) > 1:
         # an internal staging struct may carry the temp file through the commit; the transaction type is the one a
         # caller can name
-        pub = [h for h in hits if ctx.prog.adts[h].get("reachable")]
+        pub = [h for h in hits if prog.adts[h].get("reachable")]
         if pub:
             hits = pub
+    if len(hits) > 1:
+        # the outermost owner
+        outer = [h for h in hits if not any(h in _owned_structs(prog, o) for o in hits if o != h)]
+        if outer:
+            hits = outer
     return hits
+
+
+def txn_parts(ctx, txn):
+    """Where the transaction keeps its parts, as VFG field nodes ("F", struct, field): the key (a generic parameter), the
+    byte counter (u64), the hasher, the buffered writer and the temp file - in the transaction struct itself or in a
+    crate-local struct it holds by value."""
+    prog = ctx.prog
+    structs = [txn] + list(_owned_structs(prog, txn).keys())
+    parts = {"key": [], "size": [], "hasher": [], "writer": [], "temp": []}
+    for sp in structs:
+        for f in prog.adts[sp]["variants"][0]["fields"]:
+            ts = prog.ty_str(f["ty"])
+            t = prog.types[f["ty"]]
+            node = ("F", sp, f["name"])
+            if t.get("k") == "param":
+                parts["key"].append(node)
+            elif ts == "u64":
+                parts["size"].append(node)
+            elif "blake3::Hasher" in ts:
+                parts["hasher"].append(node)
+            elif ts.startswith("std::io::BufWriter<"):
+                parts["writer"].append(node)
+            elif t.get("k") == "adt" and effects.norm(t["def"]) == "tempfile::NamedTempFile":
+                parts["temp"].append(node)
+    return parts
 
 
 def txn_methods(ctx, txn):
